@@ -22,10 +22,24 @@
     op iohelper.TwoSections    args [init, off1, n1, off2, n2, [[w,call],...], [wresp,...]]
        NewSectionWriter(memfile, off1, n1) and NewSectionWriter(memfile, off2, n2) over the same file,
        the calls interleaved (w = 0: the first writer, 1: the second).
-       observation: [[per call as above ...], file content afterwards] *)
+       observation: [[per call as above ...], file content afterwards]
+    op iohelper.Nested         args [init, [[off, n], ...], [[level, call], ...], [wresp, ...]]
+       sections of sections: writer 0 = NewSectionWriter(memfile, off_0, n_0), writer i = NewSectionWriter(writer i-1,
+       off_i, n_i) (n = -1: AtToWriter); every call is addressed to a level.
+       observation: [[per call: return values, (offset, bytes) the FILE received ...], file content afterwards]
+    op pbcmpl.File             args [init, kind, [[off, [hasver, ver, payload]], ...]]
+       for every placement in turn pbcmpl.Marshal(iohelper.AtToWriter(memfile, off), msg); then for every
+       placement pbcmpl.Unmarshal(iohelper.AtToReader(memfile, off), blank message)  (kind: body codec of C06)
+       and finally repeated Unmarshal through ONE AtToReader(memfile, smallest off) until the first error or
+       (number of placements + 1) frames.
+       observation: [[[n, error class] ...], file content, [[n, version, error class, payload] ...], [stream steps likewise]]
+       (error classes of C06: 0 nil, 1 io.EOF, 2 io.ErrUnexpectedEOF, 3/4 invalid header/body size, 6 decode)
+       Domain: 0 <= off, every frame ends below 2^20; kind 1 (BytesValue): the frames do not overlap. *)
 From Coq Require Import ZArith List Bool String.
 From Low Require Import Lib.MachInt Lib.BitSeq Lib.Val Model.SectionWriter Spec.SectionWriterSpec
-  Model.MemFile Model.SectionReader Spec.SectionReaderSpec Model.SectionPair Spec.SectionPairSpec.
+  Model.MemFile Model.SectionReader Spec.SectionReaderSpec Model.SectionPair Spec.SectionPairSpec
+  Model.Pbcmpl Spec.PbcmplSpec Model.PbcmplFile Spec.PbcmplFileSpec Run.PbcmplOps
+  Model.SectionNest Spec.SectionNestSpec.
 Import ListNotations.
 Open Scope string_scope.
 Open Scope Z_scope.
@@ -129,6 +143,47 @@ Definition to_acall (c : call) : acall :=
   | CSize => ASize
   end.
 
+Definition dec_placement (v : val) : option placement :=
+  match v with
+  | VL [VZ off; m] => match as_msg m with Some m => Some (off, m) | None => None end
+  | _ => None
+  end.
+
+Definition placement_in_domain (kind : Z) (p : placement) : bool :=
+  (0 <=? fst p) && (fst p + 32 + zlen (k_enc kind (snd (snd p))) <=? file_limit).
+
+(** kind 1 (wrappers.BytesValue): the modelled decoder covers intact bodies only, so the frames
+    must not overlap *)
+Fixpoint placements_disjoint (kind : Z) (ps : list placement) : bool :=
+  match ps with
+  | [] => true
+  | p :: t =>
+      forallb (fun q =>
+        let pe := fst p + 32 + zlen (k_enc kind (snd (snd p))) in
+        let qe := fst q + 32 + zlen (k_enc kind (snd (snd q))) in
+        (pe <=? fst q) || (qe <=? fst p)) t && placements_disjoint kind t
+  end.
+
+Definition min_off (ps : list placement) : Z := fold_right (fun p m => Z.min (fst p) m) file_limit ps.
+
+Definition enc_mres (r : Z * option perr) : val := VL [VZ (fst r); v_err (snd r)].
+Definition enc_ures (r : Z * list Z * option perr * list Z) : val :=
+  let '(n, ver, err, p) := r in VL [VZ n; vzs ver; v_err err; vzs p].
+
+Definition dec_window (v : val) : option (Z * Z) :=
+  match v with
+  | VL [VZ o; VZ n] => Some (o, if n =? -1 then 2^63 - 1 - o else n)
+  | _ => None
+  end.
+
+Definition dec_lcall (v : val) : option (nat * call) :=
+  match v with
+  | VL [VZ l; c] => match dec_call c with Some c => Some (Z.to_nat l, c) | None => None end
+  | _ => None
+  end.
+
+Definition to_lacall (lc : nat * call) : nat * acall := (fst lc, to_acall (snd lc)).
+
 Definition to_wacall (wc : wcall) : Z * acall := (fst wc, to_acall (snd wc)).
 
 Definition ops_C18 : list opdef := [
@@ -224,6 +279,63 @@ Definition ops_C18 : list opdef := [
            | Some init, Some (wcs, wsc) =>
                let aouts := spec_two_sections o1 n1 o2 n2 wsc (map to_wacall wcs) in
                VL [VL (map enc_aout aouts); vzs (spec_file_after init aouts)]
+           | _, _ => VBad end
+       | _ => VBad end) |};
+  {| op_name := "iohelper.Nested";
+     op_run := fun a => match a with
+       | [init; VL ws; VL lcs; VL wsc] =>
+           match as_zs init, opt_all (map dec_window ws), opt_all (map dec_lcall lcs), opt_all (map dec_resp wsc) with
+           | Some init, Some ws, Some lcs, Some wsc =>
+               if is_bytes init && (zlen init <=? file_limit) &&
+                  forallb (fun w => section_in_domain (fst w) (snd w)) ws &&
+                  forallb (fun lc => (Nat.ltb (fst lc) (List.length ws)) && call_in_domain (snd lc)) lcs &&
+                  forallb resp_in_domain wsc
+               then
+                 let outs := runN (map (fun w => NewSectionWriter (fst w) (snd w)) ws) wsc lcs in
+                 if outs_small outs then VL [VL (map enc_out outs); vzs (file_after init outs)] else VBad
+               else VBad
+           | _, _, _, _ => VBad end
+       | _ => VBad end;
+     op_spec := fun_spec (fun a => match a with
+       | [init; VL ws; VL lcs; VL wsc] =>
+           match as_zs init, opt_all (map dec_window ws), opt_all (map dec_lcall lcs), opt_all (map dec_resp wsc) with
+           | Some init, Some ws, Some lcs, Some wsc =>
+               let aouts := spec_nested ws wsc (map to_lacall lcs) in
+               VL [VL (map enc_aout aouts); vzs (spec_file_after init aouts)]
+           | _, _, _, _ => VBad end
+       | _ => VBad end) |};
+  {| op_name := "pbcmpl.File";
+     op_run := fun a => match a with
+       | [init; VZ kind; VL ps] =>
+           match as_zs init, opt_all (map dec_placement ps) with
+           | Some init, Some ps =>
+               if is_bytes init && (zlen init <=? file_limit) && kind_ok kind &&
+                  forallb (placement_in_domain kind) ps &&
+                  (negb (kind =? 1) || placements_disjoint kind ps)
+               then
+                 match marshal_all kind init ps with
+                 | None => VPanic
+                 | Some (rs, f) =>
+                     match unmarshal_all kind f (map fst ps), StreamAt kind f (min_off ps) (S (List.length ps)) with
+                     | Some us, Some st =>
+                         VL [VL (map enc_mres rs); vzs f; VL (map enc_ures us); VL (map enc_ures st)]
+                     | _, _ => VPanic
+                     end
+                 end
+               else VBad
+           | _, _ => VBad end
+       | _ => VBad end;
+     op_spec := fun_spec (fun a => match a with
+       | [init; VZ kind; VL ps] =>
+           match as_zs init, opt_all (map dec_placement ps) with
+           | Some init, Some ps =>
+               match spec_marshal_all kind init ps with
+               | None => VPanic
+               | Some (rs, f) =>
+                   VL [VL (map enc_mres rs); vzs f;
+                       VL (map (fun p => enc_ures (spec_unmarshal_at kind f (fst p))) ps);
+                       VL (map enc_ures (spec_stream_at kind f (min_off ps) (S (List.length ps))))]
+               end
            | _, _ => VBad end
        | _ => VBad end) |}
 ].
